@@ -18,6 +18,32 @@ def _unraisable(args):
     LOST.append(("unraisable", repr(args.exc_value)))
 
 
+REACHED = {}
+
+
+def _watch_repo_functions(repo):
+    """sys.monitoring PY_START, restricted to code objects defined under the repository: records WHICH library
+    functions the workload actually entered (function level, survives line shifts).  Each code object reports once
+    and is then disabled, so the cost is negligible."""
+    mon = getattr(sys, "monitoring", None)
+    if mon is None:
+        return
+    root = os.path.abspath(repo) + os.sep
+    tool = 4
+
+    def on_start(code, offset):
+        fn = code.co_filename
+        if fn.startswith(root) and not fn.startswith(root + "tests"):
+            REACHED[f"{fn[len(root):]}:{code.co_qualname}"] = 1
+        return mon.DISABLE
+    try:
+        mon.use_tool_id(tool, "vf-anchors")
+        mon.register_callback(tool, mon.events.PY_START, on_start)
+        mon.set_events(tool, mon.events.PY_START)
+    except Exception:  # noqa
+        pass
+
+
 def main():
     engine_name, mode, inp, out = sys.argv[1:5]
     faulthandler.enable()
@@ -34,8 +60,10 @@ def main():
         m = importlib.import_module(modname)
         if not os.path.abspath(m.__file__).startswith(os.path.abspath(repo) + os.sep):
             raise SystemExit(f"{modname} imported from {m.__file__}, expected under {repo}")
+    _watch_repo_functions(repo)
     if mode == "shard":
         res = engine.run_shard(payload)
+        res.setdefault("extra", {})["library_functions_entered"] = sorted(REACHED)
     else:
         v = engine.replay(payload["pid"], payload["case"])
         res = {"violation": v}
